@@ -3,15 +3,14 @@
 From Coq Require Import ZArith List.
 Require Import OV.Base.Bytes OV.Base.Py OV.Base.C13_Types.
 Import ListNotations.
-Open Scope Z_scope.
 Definition C13_STARTED : bytes := [83;84;65;82;84;69;68]%N.
 Definition C13_STOPPED : bytes := [83;84;79;80;80;69;68]%N.
-Definition gen_Split (elapsed length : Z) : split := mkSplit elapsed length.
-Definition gen_Split_elapsed (s : split) : Z := sp_elapsed s.
-Definition gen_Split_length (s : split) : Z := sp_length s.
-Definition gen_delta_seconds (earlier later : Z) : Z :=
-(Z.max (0) (later - earlier)).
-Definition gen_stop (clk : nat -> Z) (self__state : ostate) (self__started_at : option Z) (self__stopped_at : option Z) (self__splits : list split) (self__duration : option Z) (self_tick : nat) : gst * res (unit) :=
+Definition gen_Split (T : Type) (elapsed length : T) : split T := mkSplit elapsed length.
+Definition gen_Split_elapsed (T : Type) (s : split T) : T := sp_elapsed s.
+Definition gen_Split_length (T : Type) (s : split T) : T := sp_length s.
+Definition gen_delta_seconds (T : Type) (N : num T) (earlier later : T) : T :=
+(n_max N (n_zero N) (n_sub N later earlier)).
+Definition gen_stop (T : Type) (N : num T) (clk : nat -> T) (self__state : ostate) (self__started_at : option T) (self__stopped_at : option T) (self__splits : list (split T)) (self__duration : option T) (self_tick : nat) : gst T * res (unit) :=
 if (ostate_eqb self__state (Some C13_STOPPED)) then (
 ((self__state, self__started_at, self__stopped_at, self__splits, self__duration, self_tick), Ok tt))
 else (
@@ -23,7 +22,7 @@ let self_tick := S self_tick in
 let self__stopped_at := (Some now1) in
 let self__state := (Some C13_STOPPED) in
 ((self__state, self__started_at, self__stopped_at, self__splits, self__duration, self_tick), Ok tt))).
-Definition gen_start (clk : nat -> Z) (self__state : ostate) (self__started_at : option Z) (self__stopped_at : option Z) (self__splits : list split) (self__duration : option Z) (self_tick : nat) : gst * res (unit) :=
+Definition gen_start (T : Type) (N : num T) (clk : nat -> T) (self__state : ostate) (self__started_at : option T) (self__stopped_at : option T) (self__splits : list (split T)) (self__duration : option T) (self_tick : nat) : gst T * res (unit) :=
 if (ostate_eqb self__state (Some C13_STARTED)) then (
 ((self__state, self__started_at, self__stopped_at, self__splits, self__duration, self_tick), Ok tt))
 else (
@@ -32,25 +31,25 @@ let self_tick := S self_tick in
 let self__started_at := (Some now1) in
 let self__stopped_at := None in
 let self__state := (Some C13_STARTED) in
-let self__splits := (@nil split) in
+let self__splits := (@nil (split T)) in
 ((self__state, self__started_at, self__stopped_at, self__splits, self__duration, self_tick), Ok tt)).
-Definition gen_resume (clk : nat -> Z) (self__state : ostate) (self__started_at : option Z) (self__stopped_at : option Z) (self__splits : list split) (self__duration : option Z) (self_tick : nat) : gst * res (unit) :=
+Definition gen_resume (T : Type) (N : num T) (clk : nat -> T) (self__state : ostate) (self__started_at : option T) (self__stopped_at : option T) (self__splits : list (split T)) (self__duration : option T) (self_tick : nat) : gst T * res (unit) :=
 if (ostate_eqb self__state (Some C13_STOPPED)) then (
 let self__state := (Some C13_STARTED) in
 ((self__state, self__started_at, self__stopped_at, self__splits, self__duration, self_tick), Ok tt))
 else (
 ((self__state, self__started_at, self__stopped_at, self__splits, self__duration, self_tick), Exn RuntimeError)).
-Definition gen_elapsed (clk : nat -> Z) (self__state : ostate) (self__started_at : option Z) (self__stopped_at : option Z) (self__splits : list split) (self__duration : option Z) (self_tick : nat) (maximum : option Z) : gst * res (Z) :=
+Definition gen_elapsed (T : Type) (N : num T) (clk : nat -> T) (self__state : ostate) (self__started_at : option T) (self__stopped_at : option T) (self__splits : list (split T)) (self__duration : option T) (self_tick : nat) (maximum : option T) : gst T * res (T) :=
 if (negb ((ostate_eqb self__state (Some C13_STARTED)) || (ostate_eqb self__state (Some C13_STOPPED)))) then (
 ((self__state, self__started_at, self__stopped_at, self__splits, self__duration, self_tick), Exn RuntimeError))
 else (
 if (ostate_eqb self__state (Some C13_STOPPED)) then (
 match self__started_at with Some u1 =>
 match self__stopped_at with Some u2 =>
-let elapsed := (gen_delta_seconds u1 u2) in
+let elapsed := (gen_delta_seconds T N u1 u2) in
 match maximum with Some some3 => (
-if (elapsed >? some3) then (
-let elapsed := (Z.max (0) some3) in
+if (n_gtb N elapsed some3) then (
+let elapsed := (n_max N (n_zero N) some3) in
 ((self__state, self__started_at, self__stopped_at, self__splits, self__duration, self_tick), Ok elapsed))
 else (
 ((self__state, self__started_at, self__stopped_at, self__splits, self__duration, self_tick), Ok elapsed)))
@@ -63,122 +62,123 @@ let tmp4 := self__started_at in
 let now5 := clk self_tick in
 let self_tick := S self_tick in
 match tmp4 with Some u6 =>
-let elapsed := (gen_delta_seconds u6 now5) in
+let elapsed := (gen_delta_seconds T N u6 now5) in
 match maximum with Some some7 => (
-if (elapsed >? some7) then (
-let elapsed := (Z.max (0) some7) in
+if (n_gtb N elapsed some7) then (
+let elapsed := (n_max N (n_zero N) some7) in
 ((self__state, self__started_at, self__stopped_at, self__splits, self__duration, self_tick), Ok elapsed))
 else (
 ((self__state, self__started_at, self__stopped_at, self__splits, self__duration, self_tick), Ok elapsed)))
 | None => (
 ((self__state, self__started_at, self__stopped_at, self__splits, self__duration, self_tick), Ok elapsed)) end
 | None => ((self__state, self__started_at, self__stopped_at, self__splits, self__duration, self_tick), Exn TypeError) end)).
-Definition gen_elapsed_default_maximum : option Z := None.
-Definition gen_restart (clk : nat -> Z) (self__state : ostate) (self__started_at : option Z) (self__stopped_at : option Z) (self__splits : list split) (self__duration : option Z) (self_tick : nat) : gst * res (unit) :=
+Definition gen_elapsed_default_maximum (T : Type) : option T := None.
+Definition gen_restart (T : Type) (N : num T) (clk : nat -> T) (self__state : ostate) (self__started_at : option T) (self__stopped_at : option T) (self__splits : list (split T)) (self__duration : option T) (self_tick : nat) : gst T * res (unit) :=
 if (ostate_eqb self__state (Some C13_STARTED)) then (
-match gen_stop clk self__state self__started_at self__stopped_at self__splits self__duration self_tick with
+match gen_stop T N clk self__state self__started_at self__stopped_at self__splits self__duration self_tick with
 | ((self__state, self__started_at, self__stopped_at, self__splits, self__duration, self_tick), r__1) =>
 match r__1 with Exn e__2 => ((self__state, self__started_at, self__stopped_at, self__splits, self__duration, self_tick), Exn e__2)
 | Ok v3 =>
-match gen_start clk self__state self__started_at self__stopped_at self__splits self__duration self_tick with
+match gen_start T N clk self__state self__started_at self__stopped_at self__splits self__duration self_tick with
 | ((self__state, self__started_at, self__stopped_at, self__splits, self__duration, self_tick), r__4) =>
 match r__4 with Exn e__5 => ((self__state, self__started_at, self__stopped_at, self__splits, self__duration, self_tick), Exn e__5)
 | Ok v6 =>
 ((self__state, self__started_at, self__stopped_at, self__splits, self__duration, self_tick), Ok tt) end end end end)
 else (
-match gen_start clk self__state self__started_at self__stopped_at self__splits self__duration self_tick with
+match gen_start T N clk self__state self__started_at self__stopped_at self__splits self__duration self_tick with
 | ((self__state, self__started_at, self__stopped_at, self__splits, self__duration, self_tick), r__7) =>
 match r__7 with Exn e__8 => ((self__state, self__started_at, self__stopped_at, self__splits, self__duration, self_tick), Exn e__8)
 | Ok v9 =>
 ((self__state, self__started_at, self__stopped_at, self__splits, self__duration, self_tick), Ok tt) end end).
-Definition gen_split (clk : nat -> Z) (self__state : ostate) (self__started_at : option Z) (self__stopped_at : option Z) (self__splits : list split) (self__duration : option Z) (self_tick : nat) : gst * res (split) :=
+Definition gen_split (T : Type) (N : num T) (clk : nat -> T) (self__state : ostate) (self__started_at : option T) (self__stopped_at : option T) (self__splits : list (split T)) (self__duration : option T) (self_tick : nat) : gst T * res (split T) :=
 if (ostate_eqb self__state (Some C13_STARTED)) then (
-match gen_elapsed clk self__state self__started_at self__stopped_at self__splits self__duration self_tick None with
+match gen_elapsed T N clk self__state self__started_at self__stopped_at self__splits self__duration self_tick None with
 | ((self__state, self__started_at, self__stopped_at, self__splits, self__duration, self_tick), r__1) =>
 match r__1 with Exn e__2 => ((self__state, self__started_at, self__stopped_at, self__splits, self__duration, self_tick), Exn e__2)
 | Ok v3 =>
 let elapsed := v3 in
 if (nonempty self__splits) then (
 match last_opt self__splits with Some last4 =>
-let length := (gen_delta_seconds (gen_Split_elapsed last4) elapsed) in
-let self__splits := (self__splits ++ [(gen_Split elapsed length)]) in
+let length := (gen_delta_seconds T N (gen_Split_elapsed T last4) elapsed) in
+let self__splits := (self__splits ++ [(gen_Split T elapsed length)]) in
 match last_opt self__splits with Some last5 =>
 ((self__state, self__started_at, self__stopped_at, self__splits, self__duration, self_tick), Ok last5)
 | None => ((self__state, self__started_at, self__stopped_at, self__splits, self__duration, self_tick), Exn IndexError) end
 | None => ((self__state, self__started_at, self__stopped_at, self__splits, self__duration, self_tick), Exn IndexError) end)
 else (
 let length := elapsed in
-let self__splits := (self__splits ++ [(gen_Split elapsed length)]) in
+let self__splits := (self__splits ++ [(gen_Split T elapsed length)]) in
 match last_opt self__splits with Some last6 =>
 ((self__state, self__started_at, self__stopped_at, self__splits, self__duration, self_tick), Ok last6)
 | None => ((self__state, self__started_at, self__stopped_at, self__splits, self__duration, self_tick), Exn IndexError) end) end end)
 else (
 ((self__state, self__started_at, self__stopped_at, self__splits, self__duration, self_tick), Exn RuntimeError)).
-Definition gen_leftover (clk : nat -> Z) (self__state : ostate) (self__started_at : option Z) (self__stopped_at : option Z) (self__splits : list split) (self__duration : option Z) (self_tick : nat) (return_none : bool) : gst * res (option Z) :=
+Definition gen_leftover (T : Type) (N : num T) (clk : nat -> T) (self__state : ostate) (self__started_at : option T) (self__stopped_at : option T) (self__splits : list (split T)) (self__duration : option T) (self_tick : nat) (return_none : bool) : gst T * res (option T) :=
 if (negb (ostate_eqb self__state (Some C13_STARTED))) then (
 ((self__state, self__started_at, self__stopped_at, self__splits, self__duration, self_tick), Exn RuntimeError))
 else (
 match self__duration with Some some1 => (
-let tmp2 := some1 in
-match gen_elapsed clk self__state self__started_at self__stopped_at self__splits self__duration self_tick None with
-| ((self__state, self__started_at, self__stopped_at, self__splits, self__duration, self_tick), r__3) =>
-match r__3 with Exn e__4 => ((self__state, self__started_at, self__stopped_at, self__splits, self__duration, self_tick), Exn e__4)
-| Ok v5 =>
-((self__state, self__started_at, self__stopped_at, self__splits, self__duration, self_tick), Ok (Some (Z.max (0) (tmp2 - v5)))) end end)
+let tmp2 := (n_zero N) in
+let tmp3 := some1 in
+match gen_elapsed T N clk self__state self__started_at self__stopped_at self__splits self__duration self_tick None with
+| ((self__state, self__started_at, self__stopped_at, self__splits, self__duration, self_tick), r__4) =>
+match r__4 with Exn e__5 => ((self__state, self__started_at, self__stopped_at, self__splits, self__duration, self_tick), Exn e__5)
+| Ok v6 =>
+((self__state, self__started_at, self__stopped_at, self__splits, self__duration, self_tick), Ok (Some (n_max N tmp2 (n_sub N tmp3 v6)))) end end)
 | None => (
 if return_none then (
 ((self__state, self__started_at, self__stopped_at, self__splits, self__duration, self_tick), Ok None))
 else (
 ((self__state, self__started_at, self__stopped_at, self__splits, self__duration, self_tick), Exn RuntimeError))) end).
-Definition gen_leftover_default_return_none : bool := false.
-Definition gen_expired (clk : nat -> Z) (self__state : ostate) (self__started_at : option Z) (self__stopped_at : option Z) (self__splits : list split) (self__duration : option Z) (self_tick : nat) : gst * res (bool) :=
+Definition gen_leftover_default_return_none (T : Type) : bool := false.
+Definition gen_expired (T : Type) (N : num T) (clk : nat -> T) (self__state : ostate) (self__started_at : option T) (self__stopped_at : option T) (self__splits : list (split T)) (self__duration : option T) (self_tick : nat) : gst T * res (bool) :=
 if (negb ((ostate_eqb self__state (Some C13_STARTED)) || (ostate_eqb self__state (Some C13_STOPPED)))) then (
 ((self__state, self__started_at, self__stopped_at, self__splits, self__duration, self_tick), Exn RuntimeError))
 else (
 match self__duration with Some some1 => (
-match gen_elapsed clk self__state self__started_at self__stopped_at self__splits self__duration self_tick None with
+match gen_elapsed T N clk self__state self__started_at self__stopped_at self__splits self__duration self_tick None with
 | ((self__state, self__started_at, self__stopped_at, self__splits, self__duration, self_tick), r__2) =>
 match r__2 with Exn e__3 => ((self__state, self__started_at, self__stopped_at, self__splits, self__duration, self_tick), Exn e__3)
 | Ok v4 =>
-((self__state, self__started_at, self__stopped_at, self__splits, self__duration, self_tick), Ok (v4 >? some1)) end end)
+((self__state, self__started_at, self__stopped_at, self__splits, self__duration, self_tick), Ok (n_gtb N v4 some1)) end end)
 | None => (
 ((self__state, self__started_at, self__stopped_at, self__splits, self__duration, self_tick), Ok false)) end).
-Definition gen_has_started (clk : nat -> Z) (self__state : ostate) (self__started_at : option Z) (self__stopped_at : option Z) (self__splits : list split) (self__duration : option Z) (self_tick : nat) : gst * res (bool) :=
+Definition gen_has_started (T : Type) (N : num T) (clk : nat -> T) (self__state : ostate) (self__started_at : option T) (self__stopped_at : option T) (self__splits : list (split T)) (self__duration : option T) (self_tick : nat) : gst T * res (bool) :=
 ((self__state, self__started_at, self__stopped_at, self__splits, self__duration, self_tick), Ok (ostate_eqb self__state (Some C13_STARTED))).
-Definition gen_has_stopped (clk : nat -> Z) (self__state : ostate) (self__started_at : option Z) (self__stopped_at : option Z) (self__splits : list split) (self__duration : option Z) (self_tick : nat) : gst * res (bool) :=
+Definition gen_has_stopped (T : Type) (N : num T) (clk : nat -> T) (self__state : ostate) (self__started_at : option T) (self__stopped_at : option T) (self__splits : list (split T)) (self__duration : option T) (self_tick : nat) : gst T * res (bool) :=
 ((self__state, self__started_at, self__stopped_at, self__splits, self__duration, self_tick), Ok (ostate_eqb self__state (Some C13_STOPPED))).
-Definition gen_splits (clk : nat -> Z) (self__state : ostate) (self__started_at : option Z) (self__stopped_at : option Z) (self__splits : list split) (self__duration : option Z) (self_tick : nat) : gst * res (list split) :=
+Definition gen_splits (T : Type) (N : num T) (clk : nat -> T) (self__state : ostate) (self__started_at : option T) (self__stopped_at : option T) (self__splits : list (split T)) (self__duration : option T) (self_tick : nat) : gst T * res (list (split T)) :=
 ((self__state, self__started_at, self__stopped_at, self__splits, self__duration, self_tick), Ok self__splits).
-Definition gen_enter (clk : nat -> Z) (self__state : ostate) (self__started_at : option Z) (self__stopped_at : option Z) (self__splits : list split) (self__duration : option Z) (self_tick : nat) : gst * res (unit) :=
-match gen_start clk self__state self__started_at self__stopped_at self__splits self__duration self_tick with
+Definition gen_enter (T : Type) (N : num T) (clk : nat -> T) (self__state : ostate) (self__started_at : option T) (self__stopped_at : option T) (self__splits : list (split T)) (self__duration : option T) (self_tick : nat) : gst T * res (unit) :=
+match gen_start T N clk self__state self__started_at self__stopped_at self__splits self__duration self_tick with
 | ((self__state, self__started_at, self__stopped_at, self__splits, self__duration, self_tick), r__1) =>
 match r__1 with Exn e__2 => ((self__state, self__started_at, self__stopped_at, self__splits, self__duration, self_tick), Exn e__2)
 | Ok v3 =>
 ((self__state, self__started_at, self__stopped_at, self__splits, self__duration, self_tick), Ok tt) end end.
-Definition gen_exit (clk : nat -> Z) (self__state : ostate) (self__started_at : option Z) (self__stopped_at : option Z) (self__splits : list split) (self__duration : option Z) (self_tick : nat) (type : option unit) (value : option unit) (traceback : option unit) : gst * res (option bool) :=
-match gen_stop clk self__state self__started_at self__stopped_at self__splits self__duration self_tick with
+Definition gen_exit (T : Type) (N : num T) (clk : nat -> T) (self__state : ostate) (self__started_at : option T) (self__stopped_at : option T) (self__splits : list (split T)) (self__duration : option T) (self_tick : nat) (type : option unit) (value : option unit) (traceback : option unit) : gst T * res (option bool) :=
+match gen_stop T N clk self__state self__started_at self__stopped_at self__splits self__duration self_tick with
 | ((self__state, self__started_at, self__stopped_at, self__splits, self__duration, self_tick), r__1) =>
 match r__1 with Exn e__2 => match e__2 with RuntimeError => (
 ((self__state, self__started_at, self__stopped_at, self__splits, self__duration, self_tick), Ok None))
 | _ => ((self__state, self__started_at, self__stopped_at, self__splits, self__duration, self_tick), Exn e__2) end
 | Ok v3 =>
 ((self__state, self__started_at, self__stopped_at, self__splits, self__duration, self_tick), Ok None) end end.
-Definition gen_init (clk : nat -> Z) (self__state : ostate) (self__started_at : option Z) (self__stopped_at : option Z) (self__splits : list split) (self__duration : option Z) (self_tick : nat) (duration : option Z) : gst * res (unit) :=
+Definition gen_init (T : Type) (N : num T) (clk : nat -> T) (self__state : ostate) (self__started_at : option T) (self__stopped_at : option T) (self__splits : list (split T)) (self__duration : option T) (self_tick : nat) (duration : option T) : gst T * res (unit) :=
 match duration with Some some1 => (
-if (some1 <? (0)) then (
+if (n_gtb N (n_zero N) some1) then (
 ((self__state, self__started_at, self__stopped_at, self__splits, self__duration, self_tick), Exn ValueError))
 else (
 let self__duration := (Some some1) in
 let self__started_at := None in
 let self__stopped_at := None in
 let self__state := None in
-let self__splits := (@nil split) in
+let self__splits := (@nil (split T)) in
 ((self__state, self__started_at, self__stopped_at, self__splits, self__duration, self_tick), Ok tt)))
 | None => (
 let self__duration := duration in
 let self__started_at := None in
 let self__stopped_at := None in
 let self__state := None in
-let self__splits := (@nil split) in
+let self__splits := (@nil (split T)) in
 ((self__state, self__started_at, self__stopped_at, self__splits, self__duration, self_tick), Ok tt)) end.
-Definition gen_init_default_duration : option Z := None.
+Definition gen_init_default_duration (T : Type) : option T := None.
